@@ -53,7 +53,6 @@ func checkC04(r *Run) {
 }
 func checkC05(r *Run) { genericGuards(r) }
 func checkC06(r *Run) { genericGuards(r) }
-func checkC07(r *Run) {}
 func checkC08(r *Run) {
 	genericGuards(r)
 	checkBytesCoverage(r, "C08.T1", Scope{Include: []string{"pkg/proofs/"}}, 40)
